@@ -17,14 +17,14 @@ ASSUMPTIONS = [
     "h_max = floor(n/H_n) with H_n summed in floating point; budgets where n/H_n is within 1e-9 of an integer are not judged on the budget clauses",
     "exhaustion within the budget mostly occurs for binary trees; for K >= 3 that part of the oracle is exercised less (reported in the evidence)",
 ]
-FLOOR = {"opens_judged": {"quick": 8000, "thorough": 64000},
-         "handouts_checked": {"quick": 30000, "thorough": 240000},
-         "runs_exhausted_within_budget": {"quick": 30, "thorough": 240}}
+FLOOR = {"opens_judged": {"quick": 20000, "thorough": 64000},
+         "handouts_checked": {"quick": 75000, "thorough": 240000},
+         "runs_exhausted_within_budget": {"quick": 75, "thorough": 240}}
 WALL = {"quick": 1200, "thorough": 4 * 3600}
 
 
 def gen_cases(rng, tier, count=None):
-    count = count or (450 if tier == "quick" else 8000)
+    count = count or (1200 if tier == "quick" else 9600)
     out = []
     ns = [10, 17, 30, 64, 100, 150, 257, 400] + ([800, 1500, 2000] if tier == "thorough" else [600])
     for i in range(count):
